@@ -296,7 +296,7 @@ class Run:
         elif kind == "advance":
             await asyncio.sleep(op[1])
             self.executed.append(("advance", int(op[1]) // 30))
-        elif kind in ("unknown_cell", "forged_cell", "create_live", "destroy"):
+        elif kind in ("unknown_cell", "forged_cell", "create_live", "destroy", "destroy_half"):
             await self.adversarial(i, op)
         if self.shared():
             self.nontrivial = True
@@ -515,6 +515,31 @@ class Run:
             self.nontrivial = True
             self.executed.append(("forged_cell", ekind, "bare" if (op[3] >> 5) & 1 else "plainflag" if (op[3] >> 2) & 1 else "garbage",
                                   "v6" if dst is not node.address else "v4"))
+        elif kind == "destroy_half":
+            # one direction of a relay has already been reclaimed by the relay's own sweep (each direction expires on its
+            # own: one-way traffic, a traffic limit); the remaining one is then named by a destroy that an outsider signed
+            if ekind not in ("relay", "relay_back") or cid not in node.overlay.relay_from_to:
+                return
+            other = node.overlay.relay_from_to[cid].circuit_id
+            c["dead"] = True
+            node.overlay.remove_relay(other, "no activity", remove_now=True)
+            await asyncio.sleep(w.nodes[0].overlay.settings.remove_tunnel_delay + 0.5)
+            await w.net.settle()
+            if cid not in node.overlay.relay_from_to or other in node.overlay.relay_from_to:
+                return          # torn down meanwhile by its own neighbours: nothing left to protect
+            if outsider in [e[0] for e in c["entries"]]:
+                return
+            route = node.overlay.relay_from_to[cid]
+            outsider.overlay.send_destroy(node.address, cid, [1, 2, 4, 0][op[3] % 4])
+            await w.net.settle()
+            # (a removal lingers for remove_tunnel_delay before the entry goes; 11 s in all, well below the 20 s after
+            # which the entry's own inactivity would remove it legitimately)
+            await asyncio.sleep(w.nodes[0].overlay.settings.remove_tunnel_delay + 0.5)
+            if node.overlay.relay_from_to.get(cid) is not route:
+                self.fail("J3", "outsider_destroy:half_relay", f"a destroy signed by an outsider removed relay entry {cid} at "
+                                                               f"node {node.idx} whose other direction had already expired")
+            self.nontrivial = True
+            self.executed.append(("destroy_half", ekind))
         elif kind == "create_live":
             from ipv8.messaging.anonymization.payload import CreatePayload
             sender = outsider if op[3] % 2 == 0 or adjacent is None else adjacent
@@ -775,6 +800,7 @@ def _strategy(max_ops: int):
         st.tuples(st.just("create_live"), i, i, i).map(list),
         st.tuples(st.just("destroy"), i, i, i, i).map(list),
         st.tuples(st.just("destroy"), i, i, i, i).map(list),
+        st.tuples(st.just("destroy_half"), i, i, i).map(list),
     )
     head = st.tuples(st.just("open"), i, i, i).map(list)
     return st.fixed_dictionaries({
@@ -798,6 +824,9 @@ def _grid_cases() -> list:
                 ops += [["forged_cell", 0, e, v] for v in range(64)]
                 out.append({"nodes": 5, "stack": stack, "ops": ops})
     for hops in (1, 2, 3):
+        for e in range(2 * hops):
+            out.append({"nodes": 5, "stack": None, "ops": [["open", 1, hops - 1, 3], ["open", 2, 1, 6], ["send", 0, 1],
+                                                            ["destroy_half", 0, e, e]]})
         for variant in [*range(10), 64, 65, 128, 129, 130, 131]:
             out.append({"nodes": 5, "stack": None, "ops": [["open", 1, 1, 3], ["open_under_fire", 2, hops - 1, 5, variant],
                                                             ["send", 0, 1], ["send", 1, 2]]})
